@@ -29,6 +29,12 @@ DECLARED = {
         ("subscript-store", "population_proportions[self.diff_row_idxs, :] = np.nan", "writes into the array freshly produced by _assemble_matrix (fancy indexing copies; checked in mode C by cubepart:_Slice._assemble_matrix)"),
         ("subscript-store", "population_proportions[:, self.diff_column_idxs] = np.nan", "same fresh array"),
     ],
+    "cubepart:_Strand.weighted_counts": [
+        ("subscript-store", "counts[list(self.diff_row_idxs)] = np.nan", "writes into the float copy (.astype) of the array freshly produced by _assemble_vector"),
+    ],
+    "cubepart:_Strand.unweighted_counts": [
+        ("subscript-store", "counts[list(self.diff_row_idxs)] = np.nan", "writes into the float copy (.astype) of the array freshly produced by _assemble_vector"),
+    ],
     "cubepart:_Strand.population_proportions": [
         ("subscript-store", "population_proportions[list(self.diff_row_idxs)] = np.nan", "writes into the float copy (.astype) of the array freshly produced by _assemble_vector"),
     ],
@@ -71,7 +77,9 @@ class FramePass(Contract):
             decl = DECLARED.get(q, [])
             for (line, kind, text) in ss:
                 ok = any(kind == k and text.startswith(t) for k, t, _ in decl)
-                B.check("frame:%s  [%s] %s" % (q, kind, text[:60]), ok)
+                B.check("frame:%s  [%s] %s" % (q, kind, text[:60]), ok, kind="frame",
+                        msg="undeclared mutation site at line %s of %s: %s (a new in-place write must be shown to hit a fresh "
+                            "object and be added to DECLARED, or it breaks C18)" % (line, q, text[:120]))
 
 
 REGISTRY.append(FramePass())
@@ -133,12 +141,17 @@ PROPS_SLICE = [
     "rows_scale_mean_margin", "columns_scale_median", "rows_scale_median", "table_weighted_bases",
     "row_std_err", "population_counts_moe", "pairwise_means_indices", "rows_margin_proportion",
     "columns_margin_proportion", "table_std_err", "row_unweighted_bases", "min_base_size_mask",
+    "smoothed_means", "smoothed_column_index", "smoothed_columns_scale_mean", "smoothed_column_percentages",
+    "column_percentages", "row_percentages", "table_percentages", "population_std_err", "stddev", "medians",
+    "column_unweighted_bases", "table_unweighted_bases", "column_share_sum", "total_share_sum",
 ]
 PROPS_STRAND = [
     "counts", "unweighted_counts", "table_proportions", "row_labels", "rows_base", "rows_margin",
     "table_base_range", "table_margin_range", "row_order", "shape", "inserted_row_idxs", "means",
     "sums", "scale_mean", "scale_median", "population_counts", "table_name", "name", "row_codes",
     "rows_dimension_fills", "unweighted_bases", "weighted_bases", "share_sum", "payload_order",
+    "smoothed_means", "table_percentages", "table_proportion_stderrs", "table_proportion_stddevs", "population_counts_moe",
+    "scale_std_dev", "scale_std_err", "stddev", "medians", "min_base_size_mask",
 ]
 
 
@@ -209,6 +222,9 @@ TRANSFORMS = [
     {"rows_dimension": {"insertions": [{"function": "subtotal", "name": "t", "anchor": "top", "args": [1, 2], "id": 1},
                                         {"function": "subtotal", "name": "d", "anchor": 2, "kwargs": {"positive": [1], "negative": [2]}, "id": 2}]},
      "columns_dimension": {"insertions": [{"function": "subtotal", "name": "cd", "anchor": "bottom", "kwargs": {"positive": [1], "negative": [2]}, "id": 1}]}},
+    # smoothing on both dimensions (takes effect on categorical-date ones)
+    {"rows_dimension": {"smoother": {"function": "one_sided_moving_avg", "window": 2}},
+     "columns_dimension": {"smoother": {"function": "one_sided_moving_avg", "window": 2}}},
 ]
 
 
@@ -233,7 +249,7 @@ def fixtures():
 class Histories(EnumContract):
     name = "cube:histories (read schedules, re-used argument objects, response forms)"
     props = ("C18",)
-    bound = "fixture responses (<= 400 kB) x 5 transform dictionaries x {forward, reverse, repeated} read schedules of 37 slice / 24 strand properties, second cube on the same argument objects, JSON / dict / {'value': ...} forms"
+    bound = "fixture responses (<= 400 kB) x 6 transform dictionaries x {forward, reverse, 3 shuffled} read schedules of 68 slice / 34 strand properties, second cube on the same argument objects, JSON / dict / {'value': ...} forms"
     clauses = ("schedule-independent", "reuse-of-argument-objects", "response-forms", "multi-cube-reuse")
 
     def cases(self, cfg, seed, thorough):
@@ -241,7 +257,8 @@ class Histories(EnumContract):
         rnd = random.Random(4000 + seed)
         if not thorough:
             rnd.shuffle(fx)
-            fx = fx[:45]
+            dated = [f for f in fx if "date" in f[0] or "smooth" in f[0] or "wave" in f[0]]
+            fx = (dated[:12] + [f for f in fx if f not in dated])[:45]
         for name, _ in fx:
             for ti in range(len(TRANSFORMS)):
                 yield dict(fixture=name, transforms=ti)
